@@ -177,6 +177,13 @@ impl World {
         if self.poisoned {
             return json!({"t": "skipped", "v": "poisoned"});
         }
+        // a call that never returned once is not made again in other histories (every hang costs a watchdog period and a
+        // leaked thread): it counts as hanging there, too, and the rest of the exploration goes on
+        let akey = a.to_string();
+        if HUNG_CALLS.lock().map(|s| s.contains(&akey)).unwrap_or(false) {
+            self.poisoned = true;
+            return json!({"t": "hang", "v": a["op"].as_str().unwrap_or("")});
+        }
         let job = self.prepare(a);
         let Some(job) = job else { return json!({"t": "badaction", "v": a.to_string()}) };
         let timeout = Duration::from_millis(
@@ -191,6 +198,9 @@ impl World {
             }
             Guarded::Hang => {
                 self.poisoned = true;
+                if let Ok(mut s) = HUNG_CALLS.lock() {
+                    s.insert(akey);
+                }
                 json!({"t": "hang", "v": a["op"].as_str().unwrap_or("")})
             }
         }
@@ -649,7 +659,9 @@ thread_local! {
 pub static HANGS: std::sync::atomic::AtomicUsize = std::sync::atomic::AtomicUsize::new(0);
 /// after this many calls that never returned the process stops executing further calls (each costs a watchdog
 /// period and a leaked thread); what was seen until then is reported
-pub const HANG_BUDGET: usize = 24;
+pub const HANG_BUDGET: usize = 96;
+/// the calls (operation + arguments) that hung
+pub static HUNG_CALLS: std::sync::Mutex<std::collections::BTreeSet<String>> = std::sync::Mutex::new(std::collections::BTreeSet::new());
 
 pub fn run_guarded(job: Job, timeout: Duration) -> Guarded {
     if HANGS.load(std::sync::atomic::Ordering::Relaxed) >= HANG_BUDGET {
